@@ -9,10 +9,12 @@ import (
 
 	"verifmon/internal/cases"
 	"verifmon/internal/cli"
+	"verifmon/internal/conv"
 	"verifmon/internal/evid"
 	"verifmon/internal/gen"
 	"verifmon/internal/ref"
 	"verifmon/internal/rmon"
+	"verifmon/internal/sysutil"
 )
 
 // skipForgeries target the skip digit (bit number `depth` of a deletion index).
@@ -206,6 +208,14 @@ func runC02(o *cli.Opts, run *evid.Run) {
 				}
 			}
 			judge(run, sys, key, "full/"+j.class, valid, delFullAssign(c, delHash(c)), strat, c.Indices, c.Sig(), c.Describe())
+			// the prover's front door: ProveDeletion first runs ValidateShape on the parameters. A batch the
+			// specification accepts (and the circuit can satisfy) must not be refused there.
+			if valid && sysutil.DelFits(c) {
+				if err := conv.ToRepoDel(sysutil.DelParams(c)).ValidateShape(uint32(dm.d), uint32(dm.b)); err != nil {
+					run.Violate(key+"/validate-shape", fmt.Sprintf("a batch the specification accepts (class %s) is refused by the prover's parameter check before proving: %v", j.class, err), c.Describe())
+				}
+				run.Add("prover_front_door_checks", 1)
+			}
 		})
 	})
 	run.Stage("full")
